@@ -49,6 +49,7 @@ def run(chk):
     _alloc.run_alloc(chk, 2 if chk.tier == "quick" else 25, props=("C11",))
     from props import _state
     _state.run_length_wrap(chk)
+    _state.run_alloc_refused(chk)
     _compose.finish(chk)
     chk.trusted += ["memory safety of C++ that is not index arithmetic or ownership bookkeeping (iterator invalidation, object lifetime, library internals) is observed only by the sanitizers on the generated histories",
                     "tensor handle ownership is C07's model; MessagePack object ownership is checked in C13/C14's harness runs"]
